@@ -91,6 +91,39 @@ func multiCases(g *Gen, n int) []*Case {
 	return cases
 }
 
+// annotCases: annotation-heavy chains with repeated, empty and interleaved hints,
+// details, links, keys and tags at any depth.
+func annotCases(g *Gen, n int) []*Case {
+	ops := []string{"hint", "hint", "detail", "detail", "issuelink", "telemetry", "tags", "assertion", "wrap", "withstack",
+		"domain", "secondary", "mark", "hop"}
+	hintPool := []string{"h1", "h2", "", "h1", "multi\nline hint", "See: dup"}
+	var cases []*Case
+	for i := 0; i < n; i++ {
+		var rec *R
+		switch g.rng.Intn(4) {
+		case 0:
+			rec = g.LeafOp("unimpl")
+		case 1:
+			rec = g.LeafOp("assertionfailedf")
+		default:
+			rec = g.Leaf()
+		}
+		depth := 1 + g.rng.Intn(10)
+		for d := 0; d < depth; d++ {
+			op := ops[g.rng.Intn(len(ops))]
+			if op == "hop" && !g.allowHops {
+				op = "hint"
+			}
+			rec = g.WrapOp(op, rec, 2)
+			if (op == "hint" || op == "detail") && rec.Arg == nil {
+				rec.In[0] = hintPool[g.rng.Intn(len(hintPool))]
+			}
+		}
+		cases = append(cases, buildCase(fmt.Sprintf("a%d", i), rec, nil, nil))
+	}
+	return cases
+}
+
 // pairCases: every ordered pair (outer wrapper kind, inner kind) over canonical leaves.
 func pairCases(g *Gen) []*Case {
 	var cases []*Case
@@ -152,6 +185,8 @@ func runProperty(res *Result, prop, tier string, seed uint64, driver, replay str
 		return
 	}
 	switch prop {
+	case "C19":
+		cases = append(cases, annotCases(g, n)...)
 	case "C01", "C02", "C08", "C10":
 		cases = append(cases, pairCases(g)...)
 		cases = append(cases, genCases(g, n)...)
